@@ -9,3 +9,507 @@ Open Scope Z_scope.
 Lemma ratio_eq : ratio = 12. Proof. reflexivity. Qed.
 Lemma taper_eq : taper = 144. Proof. reflexivity. Qed.
 Lemma overlap_eq : overlap = 576. Proof. reflexivity. Qed.
+
+(* ------------------------------------------------------------------ *)
+(* small arithmetic / list facts                                       *)
+(* ------------------------------------------------------------------ *)
+Lemma cdiv12_shift x y : cdiv (12 * x + y) 12 = x + cdiv y 12.
+Proof.
+  pose proof (cdiv_spec (12 * x + y) 12 ltac:(lia)).
+  pose proof (cdiv_spec y 12 ltac:(lia)). lia.
+Qed.
+
+Lemma cdiv12_mul x : cdiv (12 * x) 12 = x.
+Proof. pose proof (cdiv_spec (12 * x) 12 ltac:(lia)). lia. Qed.
+
+Lemma cdiv12_mono a b : a <= b -> cdiv a 12 <= cdiv b 12.
+Proof.
+  intros H. pose proof (cdiv_spec a 12 ltac:(lia)). pose proof (cdiv_spec b 12 ltac:(lia)). lia.
+Qed.
+
+Lemma cdiv12_lower a c : 12 * c < a -> c < cdiv a 12.
+Proof. intros H. pose proof (cdiv_spec a 12 ltac:(lia)). lia. Qed.
+
+Lemma quot12 x : 0 <= x -> Z.quot (12 * x) 12 = x.
+Proof.
+  intros Hx. rewrite Z.quot_div_nonneg by lia. rewrite Z.mul_comm. apply Z.div_mul. lia.
+Qed.
+
+Lemma zrange2_nil a b : b <= a -> zrange2 a b = [].
+Proof. intros H. unfold zrange2. replace (Z.to_nat (b - a)) with O by lia. reflexivity. Qed.
+
+Lemma zrange2_cons a b : a < b -> zrange2 a b = a :: zrange2 (a + 1) b.
+Proof.
+  intros H. unfold zrange2.
+  replace (Z.to_nat (b - a)) with (S (Z.to_nat (b - (a + 1)))) by lia.
+  cbn [seq map]. rewrite Z.add_0_r. f_equal.
+  rewrite <- seq_shift, map_map. apply map_ext. intros i. lia.
+Qed.
+
+Lemma zrange2_app a b c : a <= b -> b <= c -> zrange2 a b ++ zrange2 b c = zrange2 a c.
+Proof.
+  intros Hab Hbc.
+  remember (Z.to_nat (b - a)) as n eqn:En. revert a Hab En.
+  induction n as [|n IH]; intros a Hab En.
+  - assert (a = b) by lia. subst a. rewrite (zrange2_nil b b) by lia. reflexivity.
+  - rewrite (zrange2_cons a b) by lia. rewrite (zrange2_cons a c) by lia.
+    cbn [app]. f_equal. apply IH; lia.
+Qed.
+
+Lemma in_zrange2 a b x : In x (zrange2 a b) <-> a <= x < b.
+Proof.
+  unfold zrange2. rewrite in_map_iff. split.
+  - intros [i [<- Hi]]. apply in_seq in Hi. lia.
+  - intros Hx. exists (Z.to_nat (x - a)). split; [lia|]. apply in_seq. lia.
+Qed.
+
+Lemma zrange2_length a b : Z.of_nat (length (zrange2 a b)) = Z.max 0 (b - a).
+Proof. unfold zrange2. rewrite map_length, seq_length. lia. Qed.
+
+Lemma zrange2_0 n : zrange2 0 (Z.of_nat n) = zrange n.
+Proof.
+  unfold zrange2, zrange. replace (Z.to_nat (Z.of_nat n - 0)) with n by lia.
+  apply map_ext. intros i. lia.
+Qed.
+
+Lemma zrange2_shift_map a b c : map (fun j => c + j) (zrange2 a b) = zrange2 (c + a) (c + b).
+Proof.
+  unfold zrange2. rewrite map_map. replace (c + b - (c + a)) with (b - a) by lia.
+  apply map_ext. intros i. lia.
+Qed.
+
+Lemma admissible_spec W : admissible W = true <-> W mod 12 = 0 /\ 576 < W.
+Proof.
+  unfold admissible. rewrite ratio_eq, overlap_eq, andb_true_iff, Z.eqb_eq, Z.ltb_lt. tauto.
+Qed.
+
+(* ------------------------------------------------------------------ *)
+(* the window loop in closed form                                      *)
+(* ------------------------------------------------------------------ *)
+Section LF.
+Variables ns W : Z.
+Hypothesis Hns : 144 <= ns.
+Hypothesis Hadm : admissible W = true.
+
+Definition qw (W : Z) : Z := W / 12.
+Local Notation q := (qw W).
+Local Notation s := (stride W 576).
+Local Notation K := (lastk ns W 576).
+Local Notation N := (cdiv ns 12).
+Set Default Proof Using "Hns Hadm".
+
+Lemma W_eq : W = 12 * q.
+Proof.
+  apply admissible_spec in Hadm. destruct Hadm as [Hm _].
+  pose proof (Z.div_mod W 12 ltac:(lia)). unfold qw. lia.
+Qed.
+
+Lemma q_ge : 49 <= q.
+Proof. pose proof W_eq. apply admissible_spec in Hadm. lia. Qed.
+
+Lemma Hns1 : 1 <= ns. Proof. lia. Qed.
+Lemma Hov : 0 <= 576 < W. Proof. apply admissible_spec in Hadm. lia. Qed.
+
+Lemma s_eq : s = 12 * (q - 48).
+Proof. unfold stride. pose proof W_eq. lia. Qed.
+
+Lemma quot_W : Z.quot W 12 = q.
+Proof. pose proof Hov. rewrite Z.quot_div_nonneg by lia. reflexivity. Qed.
+
+Lemma quot_W288 : Z.quot (W - 144 * 2) 12 = q - 24.
+Proof.
+  pose proof Hov. rewrite Z.quot_div_nonneg by lia.
+  replace (W - 144 * 2) with (W + (-24) * 12) by lia. rewrite Z.div_add by lia. unfold qw. lia.
+Qed.
+
+Lemma cdiv_W : cdiv W 12 = q.
+Proof. pose proof W_eq. pose proof (cdiv_spec W 12 ltac:(lia)). lia. Qed.
+
+Lemma K_nonneg' : 0 <= K. Proof. apply (K_nonneg ns W 576 Hns1 Hov). Qed.
+
+(* kept decimated columns of window k and the LF row numbers they become *)
+Definition ka (k : Z) : Z := if k =? 0 then 0 else 24.
+Definition kb (ns W k : Z) : Z :=
+  if k =? lastk ns W 576 then cdiv (ns - k * stride W 576) 12 else qw W - 24.
+Definition crow (ns W k : Z) : Z * Z * Z * Z :=
+  (k * stride W 576, Z.min (k * stride W 576 + W) ns, ka k, kb ns W k).
+Definition lo (W k : Z) : Z := k * (qw W - 48) + ka k.
+Definition hi (ns W k : Z) : Z := k * (qw W - 48) + kb ns W k.
+
+(* length of the last window *)
+Lemma last_len : (0 < K -> 576 < ns - K * s) /\ ns - K * s <= W /\ 144 <= ns - K * s.
+Proof.
+  pose proof (last_len_le ns W 576 Hns1 Hov) as Hle.
+  pose proof K_nonneg' as HK.
+  destruct (Z.eq_dec K 0) as [E|E].
+  - rewrite E in *. split; [lia|]. split; lia.
+  - pose proof (last_len_gt_ov ns W 576 Hns1 Hov ltac:(lia)). split; [lia|]. split; lia.
+Qed.
+
+Lemma lf_row_closed k : 0 <= k <= K ->
+  lf_row W (K + 1) k (win ns W 576 k) = Some (crow ns W k).
+Proof.
+  intros Hk. pose proof W_eq as HW. pose proof q_ge as Hq. pose proof s_eq as Hs.
+  unfold lf_row, win, crow. change (W - 576) with s.
+  rewrite taper_eq. unfold ind2save, ndec. rewrite taper_eq, ratio_eq.
+  change (Z.quot (144 * 2) 12) with 24.
+  rewrite quot_W, quot_W288.
+  replace (K + 1 - 1) with K by lia.
+  unfold pyslice, ka, kb.
+  destruct (Z.eq_dec k K) as [EK|NK].
+  - (* last window *)
+    subst k. rewrite Z.eqb_refl.
+    pose proof (K_reaches ns W 576 Hns1 Hov) as Hr. unfold stride in Hr, Hs |- *.
+    replace (Z.min (K * (W - 576) + W) ns) with ns by lia.
+    pose proof last_len as [Hl1 [Hl2 Hl3]]. unfold stride in Hl1, Hl2, Hl3.
+    destruct (ns - K * (W - 576) <? 144) eqn:E; [lia|].
+    pose proof (cdiv12_mono _ _ Hl2) as Hm. pose proof cdiv_W as HcW.
+    destruct (K =? 0) eqn:E0.
+    + pose proof (cdiv12_lower (ns - K * (W - 576)) 0 ltac:(lia)).
+      rewrite (Z.min_l 0) by lia. rewrite Z.min_r by lia. rewrite Z.max_r by lia. reflexivity.
+    + pose proof (cdiv12_lower (ns - K * (W - 576)) 48 ltac:(lia)).
+      rewrite (Z.min_l 24) by lia. rewrite Z.min_r by lia. rewrite Z.max_r by lia. reflexivity.
+  - (* inner window *)
+    pose proof (before_K_short ns W 576 Hns1 Hov k ltac:(lia)) as Hb. unfold stride in Hb, Hs |- *.
+    replace (Z.min (k * (W - 576) + W) ns) with (k * (W - 576) + W) by lia.
+    replace (k * (W - 576) + W - k * (W - 576)) with W by lia.
+    destruct (W <? 144) eqn:E; [lia|].
+    rewrite cdiv_W.
+    destruct (k =? K) eqn:EK; [lia|].
+    destruct (k =? 0).
+    + rewrite (Z.min_l 0) by lia. rewrite Z.min_l by lia. rewrite Z.max_r by lia. reflexivity.
+    + rewrite (Z.min_l 24) by lia. rewrite Z.min_l by lia. rewrite Z.max_r by lia. reflexivity.
+Qed.
+
+Definition crows_from (k : Z) (n : nat) : list (Z * Z * Z * Z) :=
+  map (fun i => crow ns W (k + Z.of_nat i)) (seq 0 n).
+
+Lemma crows_from_S k n : crows_from k (S n) = crow ns W k :: crows_from (k + 1) n.
+Proof.
+  unfold crows_from. cbn [seq map]. rewrite Z.add_0_r. f_equal.
+  rewrite <- seq_shift, map_map. apply map_ext. intros i. f_equal. lia.
+Qed.
+
+Lemma rows_from_closed n : forall k, 0 <= k -> k + Z.of_nat n = K + 1 ->
+  lf_rows_from W (K + 1) k (wins_from ns W 576 k n) = Some (crows_from k n).
+Proof.
+  induction n as [|n IH]; intros k Hk HK.
+  - reflexivity.
+  - rewrite (wins_from_S ns W 576 Hns1 Hov), crows_from_S. cbn [lf_rows_from].
+    rewrite lf_row_closed by lia. rewrite IH by lia. reflexivity.
+Qed.
+
+Lemma lf_windows_closed : lf_windows ns W = Some (crows_from 0 (Z.to_nat (K + 1))).
+Proof.
+  unfold lf_windows. rewrite Hadm. rewrite overlap_eq.
+  rewrite (firstlast_closed ns W 576 Hns1 Hov).
+  rewrite (nwin_K ns W 576 Hns1 Hov).
+  pose proof K_nonneg'. apply rows_from_closed; lia.
+Qed.
+
+(* tiling of the LF row numbers *)
+Lemma lo_0 : lo W 0 = 0. Proof. reflexivity. Qed.
+
+Lemma hi_lo_next k : 0 <= k < K -> hi ns W k = lo W (k + 1).
+Proof.
+  intros Hk. unfold hi, lo, kb, ka.
+  destruct (k =? K) eqn:E; [lia|]. destruct (k + 1 =? 0) eqn:E1; [lia|]. lia.
+Qed.
+
+Lemma hi_K : hi ns W K = N.
+Proof.
+  unfold hi, kb. rewrite Z.eqb_refl. rewrite s_eq.
+  pose proof (cdiv12_shift (K * (q - 48)) (ns - K * (12 * (q - 48)))) as H.
+  replace (12 * (K * (q - 48)) + (ns - K * (12 * (q - 48)))) with ns in H by lia. lia.
+Qed.
+
+Lemma lo_lt_hi k : 0 <= k <= K -> lo W k < hi ns W k.
+Proof.
+  intros Hk. pose proof q_ge. unfold lo, hi, ka, kb.
+  destruct (Z.eq_dec k K) as [EK|NK].
+  - subst k. rewrite Z.eqb_refl. pose proof last_len as [Hl1 [Hl2 Hl3]].
+    destruct (K =? 0) eqn:E0.
+    + pose proof (cdiv12_lower (ns - K * s) 0 ltac:(lia)). lia.
+    + pose proof (cdiv12_lower (ns - K * s) 48 ltac:(lia)). lia.
+  - destruct (k =? K) eqn:E; [lia|]. destruct (k =? 0); lia.
+Qed.
+
+Lemma hi_le_N k : 0 <= k <= K -> hi ns W k <= N.
+Proof.
+  intros Hk. pose proof q_ge as Hq.
+  destruct (Z.eq_dec k K) as [EK|NK]; [subst k; rewrite hi_K; lia|].
+  rewrite <- hi_K. pose proof (lo_lt_hi K ltac:(lia)) as HlK.
+  rewrite hi_lo_next by lia.
+  assert (lo W (k + 1) <= lo W K); [|lia].
+  unfold lo, ka. destruct (k + 1 =? 0) eqn:E1; [lia|].
+  destruct (K =? 0) eqn:E0; [lia|]. nia.
+Qed.
+
+(* positions of the rows of one window: 12 * (LF row number) *)
+Lemma row_positions_crow k :
+  row_positions (crow ns W k) = map (fun m => 12 * m) (zrange2 (lo W k) (hi ns W k)).
+Proof.
+  unfold row_positions, crow, lo, hi. rewrite ratio_eq, s_eq.
+  rewrite <- (zrange2_shift_map (ka k) (kb ns W k) (k * (q - 48))).
+  rewrite map_map. apply map_ext. intros j. lia.
+Qed.
+
+Lemma positions_from n : forall k, 0 <= k -> k + Z.of_nat n = K ->
+  flat_map row_positions (crows_from k (S n)) = map (fun m => 12 * m) (zrange2 (lo W k) N).
+Proof.
+  induction n as [|n IH]; intros k Hk HK.
+  - assert (k = K) by lia. subst k. rewrite crows_from_S. cbn [crows_from seq map flat_map].
+    rewrite app_nil_r, row_positions_crow, hi_K. reflexivity.
+  - rewrite crows_from_S. cbn [flat_map]. rewrite (IH (k + 1)) by lia.
+    rewrite row_positions_crow, <- map_app. f_equal.
+    rewrite hi_lo_next by lia. apply zrange2_app.
+    + rewrite <- hi_lo_next by lia. pose proof (lo_lt_hi k ltac:(lia)). lia.
+    + rewrite <- hi_lo_next by lia. apply hi_le_N. lia.
+Qed.
+
+Lemma N_nonneg : 0 <= N.
+Proof. apply cdiv_nonneg; lia. Qed.
+
+Theorem lf_positions_closed :
+  lf_positions ns W = Some (map (fun m => 12 * m) (zrange (Z.to_nat N))).
+Proof.
+  unfold lf_positions. rewrite lf_windows_closed. f_equal.
+  pose proof K_nonneg'.
+  replace (Z.to_nat (K + 1)) with (S (Z.to_nat K)) by lia.
+  rewrite positions_from by lia. rewrite lo_0.
+  pose proof N_nonneg. rewrite <- (zrange2_0 (Z.to_nat N)).
+  replace (Z.of_nat (Z.to_nat N)) with N by lia. reflexivity.
+Qed.
+
+Lemma count_from n : forall k, 0 <= k -> k + Z.of_nat n = K ->
+  fold_right (fun r acc => row_count r + acc) 0 (crows_from k (S n)) = N - lo W k.
+Proof.
+  induction n as [|n IH]; intros k Hk HK.
+  - assert (k = K) by lia. subst k. rewrite crows_from_S. cbn [crows_from seq map fold_right].
+    rewrite <- hi_K. unfold row_count, crow, hi, lo. lia.
+  - rewrite crows_from_S. cbn [fold_right]. rewrite (IH (k + 1)) by lia.
+    rewrite <- hi_lo_next by lia. unfold row_count, crow, hi, lo. lia.
+Qed.
+
+Theorem lf_nsamples_closed : lf_nsamples ns W = Some N.
+Proof.
+  unfold lf_nsamples. rewrite lf_windows_closed. f_equal.
+  pose proof K_nonneg'.
+  replace (Z.to_nat (K + 1)) with (S (Z.to_nat K)) by lia.
+  rewrite count_from by lia. rewrite lo_0. lia.
+Qed.
+
+(* rows by position in the list *)
+Lemma crows_nth (i : nat) d : (i < Z.to_nat (K + 1))%nat ->
+  nth i (crows_from 0 (Z.to_nat (K + 1))) d = crow ns W (Z.of_nat i).
+Proof.
+  intros Hi. unfold crows_from.
+  rewrite (nth_indep _ d (crow ns W (0 + Z.of_nat 0))) by now rewrite map_length, seq_length.
+  rewrite (map_nth (fun i => crow ns W (0 + Z.of_nat i))).
+  now rewrite seq_nth.
+Qed.
+
+Lemma crows_length : length (crows_from 0 (Z.to_nat (K + 1))) = Z.to_nat (K + 1).
+Proof. unfold crows_from. now rewrite map_length, seq_length. Qed.
+
+(* margins: a kept row is at least 2*taper = 288 AP samples inside its window,
+   except towards the start of the file (window 0) and towards its end (window K) *)
+Lemma margins_crow k p : 0 <= k <= K -> In p (row_margins (crow ns W k)) ->
+  (k = 0 \/ 288 <= fst p) /\ (k = K \/ 288 < snd p) /\ 0 <= fst p /\ 0 < snd p.
+Proof.
+  intros Hk Hin. pose proof W_eq as HW. pose proof q_ge as Hq.
+  unfold row_margins, crow in Hin. rewrite ratio_eq in Hin.
+  apply in_map_iff in Hin. destruct Hin as [j [<- Hj]]. apply in_zrange2 in Hj.
+  cbn [fst snd]. unfold ka, kb in Hj.
+  destruct (Z.eq_dec k K) as [EK|NK].
+  - subst k. rewrite Z.eqb_refl in Hj.
+    pose proof (K_reaches ns W 576 Hns1 Hov) as Hr.
+    replace (Z.min (K * s + W) ns) with ns by lia.
+    pose proof (cdiv_spec (ns - K * s) 12 ltac:(lia)) as Hc.
+    destruct (K =? 0) eqn:E0; repeat split; try lia; try (right; lia); try (left; lia).
+  - pose proof (before_K_short ns W 576 Hns1 Hov k ltac:(lia)) as Hb.
+    replace (Z.min (k * s + W) ns) with (k * s + W) by lia.
+    destruct (k =? K) eqn:E; [lia|].
+    destruct (k =? 0) eqn:E0; repeat split; try lia; try (right; lia); try (left; lia).
+Qed.
+
+End LF.
+Unset Default Proof Using.
+
+(* ------------------------------------------------------------------ *)
+(* statements in terms of the produced list, as used by Props.v        *)
+(* ------------------------------------------------------------------ *)
+Section Public.
+Variables ns W : Z.
+Hypothesis Hns : 144 <= ns.
+Hypothesis Hadm : admissible W = true.
+Set Default Proof Using "Hns Hadm".
+Local Notation K := (lastk ns W 576).
+Local Notation d4 := (0, 0, 0, 0).
+
+Lemma pub_windows : exists rs l,
+  lf_windows ns W = Some rs /\ firstlast ns W overlap = Some l /\
+  map (fun r => let '(f, la, _, _) := r in (f, la)) rs = l /\
+  Z.of_nat (length rs) = nwin ns W overlap.
+Proof.
+  exists (crows_from ns W 0 (Z.to_nat (K + 1))), (wins_from ns W 576 0 (Z.to_nat (K + 1))).
+  pose proof (Hov ns W Hns Hadm) as Hov'. pose proof (Hns1 ns W Hns Hadm) as Hns1'.
+  split; [apply lf_windows_closed; assumption|].
+  split; [rewrite overlap_eq; apply firstlast_closed; assumption|].
+  split.
+  - unfold crows_from, wins_from. rewrite map_map. apply map_ext. intros i. reflexivity.
+  - rewrite (crows_length ns W Hns Hadm), overlap_eq, (nwin_K ns W 576 Hns1' Hov').
+    pose proof (K_nonneg' ns W Hns Hadm). lia.
+Qed.
+
+(* tiling: window i contributes the LF rows [lo_i, hi_i), these intervals are
+   non-empty, start at 0, are adjacent, end at ceil(ns/12); row m of window i
+   is taken at AP sample 12*m *)
+Lemma pub_tiling rs : lf_windows ns W = Some rs ->
+  exists lohi : nat -> Z * Z,
+    fst (lohi O) = 0 /\
+    snd (lohi (length rs - 1)%nat) = cdiv ns 12 /\
+    (forall i, (S i < length rs)%nat -> snd (lohi i) = fst (lohi (S i))) /\
+    (forall i, (i < length rs)%nat -> fst (lohi i) < snd (lohi i) /\
+       row_positions (nth i rs d4) = map (fun m => 12 * m) (zrange2 (fst (lohi i)) (snd (lohi i))) /\
+       row_count (nth i rs d4) = snd (lohi i) - fst (lohi i)).
+Proof.
+  rewrite (lf_windows_closed ns W Hns Hadm). intros [= <-].
+  pose proof (K_nonneg' ns W Hns Hadm) as HK.
+  exists (fun i => (lo W (Z.of_nat i), hi ns W (Z.of_nat i))). cbn [fst snd].
+  rewrite (crows_length ns W Hns Hadm).
+  split; [reflexivity|]. split.
+  - replace (Z.of_nat (Z.to_nat (K + 1) - 1)) with K by lia. apply (hi_K ns W Hns Hadm).
+  - split.
+    + intros i Hi. replace (Z.of_nat (S i)) with (Z.of_nat i + 1) by lia.
+      apply (hi_lo_next ns W Hns Hadm). lia.
+    + intros i Hi. rewrite (crows_nth ns W Hns Hadm) by assumption.
+      split; [apply (lo_lt_hi ns W Hns Hadm); lia|].
+      split; [apply (row_positions_crow ns W Hns Hadm)|].
+      unfold row_count, crow, hi, lo. lia.
+Qed.
+
+Lemma pub_margins rs (i : nat) p : lf_windows ns W = Some rs -> (i < length rs)%nat ->
+  In p (row_margins (nth i rs d4)) ->
+  (i = O \/ 2 * taper <= fst p) /\ (i = (length rs - 1)%nat \/ 2 * taper < snd p).
+Proof.
+  rewrite (lf_windows_closed ns W Hns Hadm). intros [= <-] Hi Hin.
+  pose proof (K_nonneg' ns W Hns Hadm) as HK.
+  rewrite (crows_length ns W Hns Hadm) in *. rewrite (crows_nth ns W Hns Hadm) in Hin by assumption.
+  apply (margins_crow ns W Hns Hadm) in Hin; [|lia].
+  rewrite taper_eq. destruct Hin as [[H1|H1] [[H2|H2] _]]; split; try (right; lia); left; lia.
+Qed.
+
+End Public.
+Unset Default Proof Using.
+
+(* short recordings: the single window is shorter than the taper *)
+Lemma short_rejected ns W : 1 <= ns < 144 -> admissible W = true -> lf_windows ns W = None.
+Proof.
+  intros Hns Hadm. unfold lf_windows. rewrite Hadm, overlap_eq.
+  pose proof (proj1 (admissible_spec W) Hadm) as [_ HW].
+  assert (Hov : 0 <= 576 < W) by lia.
+  assert (Hns1 : 1 <= ns) by lia.
+  rewrite (firstlast_closed ns W 576 Hns1 Hov).
+  assert (HK : lastk ns W 576 = 0).
+  { unfold lastk. pose proof (cdiv_nonpos (ns - W) (stride W 576) ltac:(unfold stride; lia) ltac:(lia)). lia. }
+  rewrite HK. change (Z.to_nat (0 + 1)) with 1%nat.
+  rewrite (wins_from_S ns W 576 Hns1 Hov). cbn [lf_rows_from].
+  unfold win, lf_row. rewrite taper_eq.
+  replace (Z.min (0 * (W - 576) + W) ns - 0 * (W - 576)) with ns by lia.
+  destruct (ns <? 144) eqn:E; [reflexivity|lia].
+Qed.
+
+Lemma inadmissible_rejected ns W : admissible W = false -> lf_windows ns W = None.
+Proof. intros H. unfold lf_windows. now rewrite H. Qed.
+
+(* ------------------------------------------------------------------ *)
+(* sync column                                                         *)
+(* ------------------------------------------------------------------ *)
+Lemma lf_sync_closed ns W cast sync : 144 <= ns -> admissible W = true ->
+  (forall p, 0 <= p < ns -> cast (sync p) = sync p) ->
+  lf_sync cast sync ns W = Some (map (fun m => sync (12 * m)) (zrange (Z.to_nat (cdiv ns 12)))).
+Proof.
+  intros Hns Hadm Hcast. unfold lf_sync. rewrite (lf_positions_closed ns W Hns Hadm).
+  f_equal. rewrite map_map. apply map_ext_in. intros m Hm. apply Hcast.
+  apply in_zrange in Hm. pose proof (cdiv_spec ns 12 ltac:(lia)). lia.
+Qed.
+
+(* ------------------------------------------------------------------ *)
+(* metadata and reopening                                              *)
+(* ------------------------------------------------------------------ *)
+Lemma rd_open_ns_exact m nrows meta_ns : 1 <= rd_nc m ->
+  rd_open_ns m (2 * rd_nc m * nrows) meta_ns = nrows.
+Proof.
+  intros Hnc. unfold rd_open_ns.
+  destruct (rd_nc m * meta_ns * 2 =? 2 * rd_nc m * nrows) eqn:E.
+  - apply Z.eqb_eq in E. nia.
+  - replace (2 * rd_nc m * nrows) with (nrows * (2 * rd_nc m)) by lia. apply Z.div_mul. lia.
+Qed.
+
+Lemma where_eq_all sh shanks : Forall (fun s => s = sh) shanks ->
+  forall i, length (where_eq sh i shanks) = length shanks.
+Proof.
+  induction 1 as [|s t Hs Ht IH]; intros i; [reflexivity|].
+  cbn [where_eq]. subst s. rewrite Z.eqb_refl. cbn [length]. now rewrite IH.
+Qed.
+
+Lemma chns_length shanks nsaved sh :
+  Z.of_nat (length (shank_chns shanks nsaved 1 sh)) = Z.of_nat (length (where_eq sh 0 shanks)) + 1.
+Proof.
+  unfold shank_chns. rewrite app_length, Nat2Z.inj_add, zrange2_length. lia.
+Qed.
+
+Lemma meta_opens_24 m shanks nrows meta_ns sh :
+  0 <= nrows -> sns2 m = 1 ->
+  let '(chns, m', nb, (nc, fs, islf, nsy, nso)) := lf_file 24 m shanks nrows meta_ns sh in
+  fs = 2500 /\ nc = Z.of_nat (length chns) /\ nsy = 1 /\
+  nso = nrows /\ nc * nso * 2 = nb /\ fsize m' = nb /\
+  sns0 m' = 0 /\ acq0 m' = 0 /\ sns1 m' + sns2 m' = nc /\ acq1 m' = sns1 m' /\
+  (where_eq sh 0 shanks <> [] -> islf = true) /\
+  subset_hi m' = nc - 1 /\ subset_orig m' = chns /\ shank_key m' = sh /\ original_meta m' = false.
+Proof.
+  intros Hn Hs. unfold lf_file. rewrite Hs.
+  set (chns := shank_chns shanks (nsaved m) 1 sh).
+  pose proof (chns_length shanks (nsaved m) sh) as Hl. fold chns in Hl.
+  set (n := Z.of_nat (length chns)) in *.
+  cbv beta iota zeta.
+  unfold rd_fs, rd_is_lf, rd_nsync, lf_nbytes. fold n.
+  assert (Hnc : rd_nc (write_lf_meta 24 m chns (2 * n * nrows) sh) = n) by reflexivity.
+  pose proof (rd_open_ns_exact (write_lf_meta 24 m chns (2 * n * nrows) sh) nrows meta_ns) as Ho.
+  rewrite Hnc in Ho. rewrite Ho by lia. rewrite Hnc.
+  cbn [write_lf_meta rate fsize sns0 sns1 sns2 acq0 acq1 subset_hi subset_orig shank_key original_meta Z.eqb Pos.eqb].
+  fold n.
+  repeat split; try reflexivity; try lia.
+  intros Hne. cbn [andb].
+  destruct (where_eq sh 0 shanks) eqn:E; [congruence|]. cbn [length] in Hl.
+  destruct (n - 1 =? 0) eqn:E1; [lia|reflexivity].
+Qed.
+
+Lemma meta_opens_21 m shanks nrows meta_ns sh :
+  0 <= nrows -> sns2 m = 1 -> shanks <> [] ->
+  Forall (fun s => s = sh) shanks -> nsaved m = Z.of_nat (length shanks) + 1 ->
+  let '(chns, m', nb, (nc, fs, islf, nsy, nso)) := lf_file 21 m shanks nrows meta_ns sh in
+  fs = 2500 /\ nc = Z.of_nat (length chns) /\ nsy = 1 /\
+  nso = nrows /\ nc * nso * 2 = nb /\ fsize m' = nb /\
+  sns0 m' = 0 /\ acq0 m' = 0 /\ sns1 m' + sns2 m' = nc /\ acq1 m' = sns1 m' /\
+  islf = true /\ shank_key m' = sh /\ original_meta m' = false.
+Proof.
+  intros Hn Hs Hne Hall Hsaved. unfold lf_file. rewrite Hs.
+  set (chns := shank_chns shanks (nsaved m) 1 sh).
+  pose proof (chns_length shanks (nsaved m) sh) as Hl. fold chns in Hl.
+  rewrite (where_eq_all sh shanks Hall 0) in Hl.
+  set (n := Z.of_nat (length chns)) in *.
+  cbv beta iota zeta.
+  unfold rd_fs, rd_is_lf, rd_nsync, lf_nbytes. fold n.
+  assert (Hnc : rd_nc (write_lf_meta 21 m chns (2 * n * nrows) sh) = n).
+  { unfold rd_nc. cbn [write_lf_meta nsaved Z.eqb Pos.eqb]. lia. }
+  pose proof (rd_open_ns_exact (write_lf_meta 21 m chns (2 * n * nrows) sh) nrows meta_ns) as Ho.
+  rewrite Hnc in Ho. rewrite Ho by lia. rewrite Hnc.
+  cbn [write_lf_meta rate fsize sns0 sns1 sns2 acq0 acq1 subset_hi subset_orig shank_key original_meta Z.eqb Pos.eqb].
+  fold n.
+  assert (Hlen : (0 < length shanks)%nat) by (destruct shanks; [congruence|cbn; lia]).
+  repeat split; try reflexivity; try lia.
+  cbn [andb].
+  destruct (n - 1 =? 0) eqn:E1; [lia|reflexivity].
+Qed.
